@@ -3,7 +3,8 @@
 usage: refactor_prompt.py <worktree> <file> [<file> ..]"""
 import sys
 wt = sys.argv[1]
-files = sys.argv[2:]
+files = [a for a in sys.argv[2:] if not a.startswith('fn:')]
+fns = [a[3:] for a in sys.argv[2:] if a.startswith('fn:')]
 print(f"""You are helping to evaluate a verification effort for the Rust crate workspace awslabs/mls-rs (an implementation of the MLS protocol, RFC 9420). Your job: produce SIX independent, realistic, strictly BEHAVIOUR-PRESERVING refactorings of library (non-test) code, of the kind a maintainer makes while tidying up, each as its own patch against the clean checkout. They will be used to see whether a static checker raises false alarms on harmless edits.
 
 Work ONLY inside your own scratch git worktree of the repository: {wt}  (a git worktree of the repo at its current HEAD; the first build compiles everything, several minutes). Do NOT touch /repo. Do NOT read or write anything under /verif or /root/proto or /root/.vp. You have no network; use `--offline` with cargo.
@@ -12,6 +13,7 @@ Work ONLY inside your own scratch git worktree of the repository: {wt}  (a git w
 
 Refactor code in these files only (pick functions that carry real logic: validation, state updates, key handling, loops over tree nodes or proposals; not trivial getters):
 {chr(10).join('- ' + f for f in files)}
+{('Refactor ONLY these functions (one patch per function, six different functions, pick the ones with the most logic):' + chr(10) + chr(10).join('- `' + f + '`' for f in fns)) if fns else ''}
 
 ## What kind of edits
 
